@@ -742,6 +742,23 @@ pub fn pkg_src(pkg: &pkggen::Package) -> PkgSrc {
   }
 }
 
+/// In the thorough tier the human-readable description keeps only the head of long texts (every
+/// case is reproducible from (seed, k): `--case k` regenerates it with the full description).
+pub fn lean_meta(v: &mut serde_json::Value) {
+  match v {
+    serde_json::Value::String(s) if s.len() > 300 => {
+      let mut cut = 300;
+      while !s.is_char_boundary(cut) {
+        cut -= 1;
+      }
+      *s = format!("{}... [{} bytes; re-run with --case for the full text]", &s[..cut], s.len());
+    }
+    serde_json::Value::Array(a) => a.iter_mut().for_each(lean_meta),
+    serde_json::Value::Object(o) => o.values_mut().for_each(lean_meta),
+    _ => {}
+  }
+}
+
 // ---------------------------------------------------------------- debugging aid
 
 /// `dgverif fcprobe <file.ts>...`: runs the files as one JSR package (first file = entrypoint mod.ts)
